@@ -13,7 +13,8 @@ class Unfoldable(Exception):
     pass
 
 
-_SAFE_STR_METHODS = {"replace", "join", "split", "format", "lower", "upper", "strip", "lstrip", "rstrip", "encode", "decode"}
+_SAFE_STR_METHODS = {"replace", "join", "split", "format", "lower", "upper", "strip", "lstrip", "rstrip", "encode", "decode",
+                     "startswith", "endswith", "casefold", "find", "count", "isalpha", "isidentifier"}
 _SAFE_BUILTINS = {"frozenset": frozenset, "set": set, "tuple": tuple, "list": list, "dict": dict, "len": len,
                   "str": str, "sorted": sorted}
 
@@ -162,6 +163,24 @@ class Folder:
             raise Unfoldable("compare")
         if isinstance(e, ast.IfExp):
             return self._e(modname, e.body if self._e(modname, e.test, env, cls, depth) else e.orelse, env, cls, depth)
+        if isinstance(e, ast.BoolOp):
+            v = None
+            for x in e.values:
+                v = self._e(modname, x, env, cls, depth)
+                if isinstance(e.op, ast.Or) and v:
+                    return v
+                if isinstance(e.op, ast.And) and not v:
+                    return v
+            return v
+        if isinstance(e, ast.UnaryOp) and isinstance(e.op, ast.Not):
+            return not self._e(modname, e.operand, env, cls, depth)
+        if isinstance(e, ast.Subscript) and isinstance(e.slice, ast.Constant):
+            try:
+                return self._e(modname, e.value, env, cls, depth)[e.slice.value]
+            except Unfoldable:
+                raise
+            except Exception as ex:
+                raise Unfoldable(str(ex))
         if isinstance(e, ast.Call):
             args = [self._e(modname, a, env, cls, depth) for a in e.args]
             kwargs = {k.arg: self._e(modname, k.value, env, cls, depth) for k in e.keywords if k.arg}
@@ -175,6 +194,13 @@ class Folder:
                     recv = None
                 if isinstance(recv, (str, bytes)):
                     return getattr(recv, fn.attr)(*args, **kwargs)
+            if isinstance(fn, ast.Attribute) and fn.attr == "get":
+                try:
+                    recv = self._e(modname, fn.value, env, cls, depth)
+                except Unfoldable:
+                    recv = None
+                if isinstance(recv, dict):
+                    return recv.get(*args)
             # self.method() within a class
             if isinstance(fn, ast.Attribute) and isinstance(fn.value, ast.Name) and fn.value.id in ("self", "cls") and cls is not None:
                 m = self.idx.find_method(cls.qualname, fn.attr)
